@@ -96,6 +96,8 @@ type reqState struct {
 	preEntered      int
 	ctxCancelled    bool // abort path: handler saw its context cancelled
 	ctxTimeout      bool // abort path: bounded wait expired
+	unwindOpen      []string // scopes of this request found open / with unclosed instances when the request left the chain
+	unwindChecked   int
 
 	entered chan struct{} // abort path: handler reached the wait point
 	done    chan struct{} // the harness pre-middleware unwound (request left the chain)
